@@ -30,7 +30,18 @@ static uint64_t pick_mask(Rng& r, const int* sites, int n) {
 
 // ---- URLPattern workload ---------------------------------------------------
 static const char* const kLit[] = {"foo", "bar", "books", "123", "old", "new", "a.b", "index.html", "x-y_z~", "Caf%C3%A9", "A",
-                                    "a^b", "[top]", "x@y", "p|q", "Mixed-Case", "sort=~name", "q`r", "~", "]["};
+                                    "a^b", "[top]", "x@y", "p|q", "Mixed-Case", "sort=~name", "q`r", "~", "][",
+                                    // literals containing escaped pattern syntax: regexp metacharacters once compiled to a regexp
+                                    "a\\+b", "f\\(x\\)", "x\\*", "q\\?", "\\{k\\}", "c\\+\\+", "1\\:2", "a.b\\$"};
+// the text a pattern literal stands for (backslash escapes removed)
+static std::string unescape_lit(std::string_view v) {
+  std::string o;
+  for (size_t i = 0; i < v.size(); i++) {
+    if (v[i] == '\\' && i + 1 < v.size()) i++;
+    o += v[i];
+  }
+  return o;
+}
 static std::string gen_pat_piece(Rng& r) {
   switch (r.below(12)) {
     case 0: return "*";
@@ -56,7 +67,7 @@ static std::string gen_pat_path(Rng& r) {
 static std::string gen_in_path(Rng& r) {
   std::string o;
   int n = r.range(0, 3);
-  for (int i = 0; i < n; i++) o += std::string("/") + pick(r, kLit);
+  for (int i = 0; i < n; i++) o += std::string("/") + unescape_lit(pick(r, kLit));
   if (o.empty()) o = "/";
   return o;
 }
@@ -85,7 +96,7 @@ static Op gen_correlated_pattern_op(Rng& r) {
   } else {
     op.args[0] = "https://" + host + path + (search.empty() ? "" : "?" + search) + (hash.empty() ? "" : "#" + hash);
   }
-  std::string tail = path + (search.empty() ? "" : "?" + search) + (hash.empty() ? "" : "#" + hash);
+  std::string tail = unescape_lit(path) + (search.empty() ? "" : "?" + unescape_lit(search)) + (hash.empty() ? "" : "#" + unescape_lit(hash));
   if (r.chance(1, 2)) {
     std::vector<size_t> cand;
     for (size_t i = 1; i < tail.size(); i++) {
@@ -151,8 +162,8 @@ static Op gen_pattern_op(Rng& r, bool with_input) {
     std::string u = std::string(pickl(r, {"https", "http", "ws", "foo"})) + "://" + pick(r, hosts);
     if (r.chance(1, 4)) u += pickl(r, {":443", ":8080", ":80"});
     u += gen_in_path(r);
-    if (r.chance(1, 3)) u += r.chance(1, 2) ? std::string("?") + pick(r, kLit) : std::string(pickl(r, {"?q=1", "?a=b", "?"}));
-    if (r.chance(1, 4)) u += r.chance(1, 2) ? std::string("#") + pick(r, kLit) : std::string(pickl(r, {"#frag", "#", "#x"}));
+    if (r.chance(1, 3)) u += r.chance(1, 2) ? std::string("?") + unescape_lit(pick(r, kLit)) : std::string(pickl(r, {"?q=1", "?a=b", "?"}));
+    if (r.chance(1, 4)) u += r.chance(1, 2) ? std::string("#") + unescape_lit(pick(r, kLit)) : std::string(pickl(r, {"#frag", "#", "#x"}));
     if (r.chance(1, 10)) {
       u = gen_in_path(r);
       op.args[10] = "https://example.com/base/";
@@ -192,8 +203,8 @@ static Op gen_pattern_op(Rng& r, bool with_input) {
       if (r.chance(2, 3)) op.args[12] = pick(r, hosts);
       if (r.chance(1, 4)) op.args[13] = pickl(r, {"443", "8080", "80", ""});
       if (r.chance(3, 4)) op.args[14] = r.chance(1, 5) ? gen_in_path(r).substr(1) : gen_in_path(r);
-      if (r.chance(1, 2)) op.args[15] = std::string(pickl(r, {"", "?", "??", "???"})) + (r.chance(1, 2) ? std::string(pick(r, kLit)) : std::string(pickl(r, {"a", "q=1", "a=b", ""})));
-      if (r.chance(1, 3)) op.args[16] = std::string(pickl(r, {"", "#", "##"})) + (r.chance(1, 2) ? std::string(pick(r, kLit)) : std::string(pickl(r, {"x", "frag", ""})));
+      if (r.chance(1, 2)) op.args[15] = std::string(pickl(r, {"", "?", "??", "???"})) + (r.chance(1, 2) ? unescape_lit(pick(r, kLit)) : std::string(pickl(r, {"a", "q=1", "a=b", ""})));
+      if (r.chance(1, 3)) op.args[16] = std::string(pickl(r, {"", "#", "##"})) + (r.chance(1, 2) ? unescape_lit(pick(r, kLit)) : std::string(pickl(r, {"x", "frag", ""})));
       if (r.chance(1, 5)) op.args[17] = pickl(r, {"https://example.com/base/", "http://other.org/dir/file?q#f", "not a url"});
     }
   }
@@ -276,6 +287,32 @@ static Op gen_pair_op(Rng& r, std::string& kind) {
   op.kind = OP_PATTERN;
   op.args.assign(18, std::nullopt);
   op.sub = uint8_t((r.chance(1, 8) ? 1 : 0) | (1 << 1) | (0 << 2));
+  if (r.chance(1, 5)) {
+    // username / password / search / hash are DEFINED through the URL API setters on a dummy URL: the pattern string of a
+    // literal value must be the escaped result of that setter
+    kind = "setter";
+    static const int comps[] = {1, 2, 6, 7};
+    int comp = pick(r, comps);
+    std::string v;
+    int n = r.range(0, 6);
+    for (int i = 0; i < n; i++) {
+      switch (r.below(6)) {
+        case 0: v += gen_label(r, r.range(1, 4)); break;
+        case 1: v += kInterestingAscii[r.below(sizeof(kInterestingAscii) - 1)]; break;
+        case 2: append_utf8(v, pick(r, kInterestingCps)); break;
+        case 3: v += pickl(r, {"\t", "\n", "\r", " ", "%41", "%zz", "%", "@", ":", "/", "?", "#", "'", "\"", "\\", "|", "^", "`", "{", "}"}); break;
+        case 4: v += pickl(r, {"a b", "x=y&z", "user", "p+w"}); break;
+        default: v += char(r.range(0x21, 0x7e));
+      }
+    }
+    v = sanitize_utf8(v);
+    // the API setters strip one leading '?' / '#', the pattern canonicaliser (query / fragment state override) does not:
+    // values are generated without such a leading delimiter so that both sides see the same text
+    while ((comp == 6 && !v.empty() && v[0] == '?') || (comp == 7 && !v.empty() && v[0] == '#')) v.erase(0, 1);
+    op.args[size_t(comp)] = esc_pattern(v);
+    op.args[9] = v;  // the raw value (slot 9 is unused: this op has no input)
+    return op;
+  }
   if (r.chance(1, 6)) {
     // a port that only LOOKS like the default (leading zeros): the Standard elides by string comparison, so it
     // stays and canonicalises exactly as it does next to a non-special protocol
@@ -326,7 +363,7 @@ static Op gen_pair_op(Rng& r, std::string& kind) {
   op.args[5] = rel;
   // base URL whose directory may contain pattern-syntax characters
   static const char* const dirs[] = {"a(b)", "v1:beta", "c++", "x*y", "{b}", "plain", "a.b", "q+", "(", ":", "deep/er", "sp ace", "caf\xc3\xa9", "~u", "a\\b"};
-  std::string b = std::string(pickl(r, {"https", "http", "ws", "foo", "https"})) + "://" +
+  std::string b = std::string(pickl(r, {"https", "http", "ws", "foo", "https", "web+app", "git+ssh", "a.b-c", "x+"})) + "://" +
                   pickl(r, {"example.com", "EXAMPLE.com", "sub.example.org", "127.0.0.1", "ex\xc3\xa4mple.com"});
   if (r.chance(1, 4)) b += pickl(r, {":8080", ":443", ":80", ":21"});
   int n = r.below(4);
@@ -340,6 +377,7 @@ static Op gen_pair_op(Rng& r, std::string& kind) {
 // the spelled-out twin of a pair op, or nullopt when the pair does not apply (e.g. the base does not parse)
 static std::optional<Op> pair_twin(const Op& a, const std::string& kind) {
   Op b = a;
+  if (kind == "setter") return std::nullopt;  // compared with the URL setter, not with a second pattern (see execute)
   if (kind == "port0") {
     if (!a.args[0] || !a.args[4]) return std::nullopt;
     b.args[0] = "foo";  // no default port: whatever the port canonicalises to next to 'foo' is what it must be next to a special scheme
@@ -589,7 +627,49 @@ static Result execute(const Plan& p, Stats& st) {
     if (A[0].find("construct=ok") != std::string::npos) st.add("pattern.constructed");
   }
   if (p.property == "C15" && A[0].find("construct=ok") != std::string::npos) st.add("pattern.constructed");
-  if (p.property == "C15" && p.cfg.count("pair") && !ops.empty()) {
+  if (p.property == "C15" && p.cfg_s("pair") == "setter" && !ops.empty() && ops[0].args.size() > 9 && ops[0].args[9]) {
+    int comp = -1;
+    for (int k : {1, 2, 6, 7})
+      if (ops[0].args[size_t(k)]) comp = k;
+    const std::string raw = *ops[0].args[9];
+    // The Standard's dummy URL is a fresh URL record: its scheme is empty, hence NOT special, so the query is encoded with
+    // the plain query set (an apostrophe stays). A first version used an https dummy and raised a false alarm on "'".
+    auto dummy = ada::parse<ada::url_aggregator>("foo://dummy.test/");
+    if (comp > 0 && dummy && valid_utf8(raw)) {
+      hs.off();
+      bool ok = true;
+      std::string got_setter;
+      if (comp == 1) { ok = dummy->set_username(raw); got_setter = std::string(dummy->get_username()); }
+      if (comp == 2) { ok = dummy->set_password(raw); got_setter = std::string(dummy->get_password()); }
+      if (comp == 6) { dummy->set_search(raw); got_setter = std::string(dummy->get_search()); if (!got_setter.empty() && got_setter[0] == '?') got_setter.erase(0, 1); }
+      if (comp == 7) { dummy->set_hash(raw); got_setter = std::string(dummy->get_hash()); if (!got_setter.empty() && got_setter[0] == '#') got_setter.erase(0, 1); }
+      Op only = ops[0];
+      only.args[9].reset();
+      Hist<ada::url_aggregator> h1;
+      std::string a = exec_op(only, h1).text;
+      st.add("pair.setter.checked");
+      static const char* const fld[] = {"", "p.username", "p.password", "", "", "", "p.search", "p.hash"};
+      bool oka = a.find("construct=ok") != std::string::npos;
+      std::string why;
+      if (!ok) {
+        st.add("pair.setter.setter_refused");
+      } else if (!oka) {
+        why = std::string(fld[comp]) + ": construction fails although the URL setter accepts the value and gives '" + printable(got_setter) + "'";
+      } else {
+        st.add("pair.setter.constructed");
+        std::string x = snap_field(a.substr(2), fld[comp]);
+        if (x != esc_pattern(got_setter)) why = std::string(fld[comp]) + "='" + printable(x) + "' but the URL setter gives '" + printable(got_setter) + "' (escaped: '" + printable(esc_pattern(got_setter)) + "')";
+      }
+      res.hash = fnv1a(a + "#" + got_setter, res.hash);
+      if (!why.empty()) {
+        res.violation = true;
+        res.vclass = "component-differs-from-url-setter";
+        res.sig = fld[comp];
+        res.detail = only.pretty() + " (raw value '" + printable(raw) + "'): " + why;
+        return res;
+      }
+    }
+  } else if (p.property == "C15" && p.cfg.count("pair") && !ops.empty()) {
     const std::string kind = p.cfg_s("pair");
     auto twin = pair_twin(ops[0], kind);
     if (twin) {
